@@ -1,5 +1,6 @@
-import SeqVerif.Model.CacheThm
-import SeqVerif.Model.CacheClean
+import SeqVerif.Model.CacheRefine
+import SeqVerif.Model.CacheUniq
+import SeqVerif.Model.CacheOld
 import SeqVerif.Extracted.C18
 /-!
 # C18 - the block cache is coherent, accounted and bounded
@@ -44,7 +45,7 @@ theorem c18_produced_only_by_loader (cfg : Cfg) {s s' : St} {l : Label} {o : Out
         right
         simp only [Option.some.injEq] at hs
         refine ⟨t, c, k, eid, v, sz, rfl, hpc, ?_⟩
-        rw [← fst_of_eq hs]; unfold save; rw [he]; rfl
+        rw [← fst_of_eq hs]; unfold save; rw [he]; simp only; split <;> rfl
       all_goals
         left
         simp only [Option.some.injEq, Prod.mk.injEq] at hs
@@ -127,7 +128,8 @@ theorem c18_waiters_get_loader_value (cfg : Cfg) {s s1 s2 : St} {t0 c k eid v sz
     simp only [step, hload, Option.some.injEq] at hsave
     rw [← fst_of_eq hsave]
     unfold save; rw [he]
-    exact ⟨_, List.getElem?_set_self (List.getElem?_eq_some_iff.mp he).1, rfl, rfl⟩
+    simp only
+    split <;> exact ⟨_, List.getElem?_set_self (List.getElem?_eq_some_iff.mp he).1, rfl, rfl⟩
   obtain ⟨e1, he1, hst1, hval1⟩ := h1
   obtain ⟨e2, he2, -, -, hst2⟩ := hlater.stable (Reach.step hr hsave) eid e1 he1
   simp only [step, hwait, he2, (hst2 hst1).1, (hst2 hst1).2, hval1]
@@ -135,31 +137,41 @@ theorem c18_waiters_get_loader_value (cfg : Cfg) {s s1 s2 : St} {t0 c k eid v sz
 /-! ## failed loads (all interleavings) -/
 
 /-- **no poison.**  A loader error or panic is reported to the thread that ran the loader (and to nobody else: the
-program counters of the other threads do not change), nothing is logged as produced, and the key is left without a
-map entry, so the next lookup of that key runs its loader again. -/
+program counters of the other threads do not change), nothing is logged as produced, the failed entry is marked
+abandoned and is in no map.  If it was the key's map entry, the key is left without entry and the next lookup runs
+its loader again; if another caller has re-created the key in the meantime (the failed entry had been evicted), that
+caller's entry stays untouched - and is sane by `c18_map_entries_sane`. -/
 theorem c18_no_poison (cfg : Cfg) {s s' : St} {t c k eid : Nat} {oc : Outcome} {o : Out} (hr : Reach cfg s)
     (hload : s.pc t = .loading c k eid) (hfail : oc = .err ∨ oc = .panic)
     (hs : step cfg s (.finish t oc) = some (s', o)) :
-    (o = if oc = .err then .err else .panic) ∧ s'.produced = s.produced ∧ lookup s'.heap c k = none ∧
+    (o = if oc = .err then .err else .panic) ∧ s'.produced = s.produced ∧
       (∀ t', t' ≠ t → s'.pc t' = s.pc t') ∧
-      (∀ t', s'.pc t' = .idle → s'.released c = false → c < s'.ncaches →
-        ∃ s'', step cfg s' (.get t' c k) = some (s'', .loading)) := by
+      (∃ e, s'.heap[eid]? = some e ∧ e.st = .abandoned ∧ e.inMap = false) ∧
+      (∀ i, i ≠ eid → s'.heap[i]? = s.heap[i]?) ∧
+      (lookup s.heap c k = some eid → lookup s'.heap c k = none ∧
+        ∀ t', s'.pc t' = .idle → s'.released c = false → c < s'.ncaches →
+          ∃ s'', step cfg s' (.get t' c k) = some (s'', .loading)) := by
   have hv := reach_vinv cfg hr
   have hrec : s' = recover s t c k eid ∧ (o = if oc = .err then .err else .panic) := by
     rcases hfail with rfl | rfl <;> simp only [step, hload, Option.some.injEq, Prod.mk.injEq] at hs <;>
       exact ⟨hs.1.symm, by simp [hs.2]⟩
   obtain ⟨rfl, ho⟩ := hrec
-  have hlk := recover_lookup_none hv hload
+  obtain ⟨e, he, hc, hk, hheap⟩ := recover_heap hv hload
+  have hlen : eid < s.heap.length := (List.getElem?_eq_some_iff.mp he).1
   have hpc : ∀ t', t' ≠ t → (recover s t c k eid).pc t' = s.pc t' := by
     intro t' hne
-    unfold recover; split
-    · rfl
-    · rw [setPc_pc, if_neg hne]; rfl
-  refine ⟨ho, by unfold recover; split <;> rfl, hlk, hpc, ?_⟩
-  intro t' hidle hrel hlt
-  refine ⟨(acquire (recover s t c k eid) t' c k).1, ?_⟩
-  have h2 : (acquire (recover s t c k eid) t' c k).2 = .loading := by unfold acquire; rw [hlk]
-  simp only [step, hidle, hrel, hlt, and_self, if_true, ← h2]
+    unfold recover; rw [he]; simp only
+    rw [setPc_pc, if_neg hne]; rfl
+  refine ⟨ho, by unfold recover; rw [he], hpc, ⟨_, by rw [hheap]; exact List.getElem?_set_self hlen, rfl, rfl⟩, ?_, ?_⟩
+  · intro i hi; rw [hheap]; exact List.getElem?_set_ne (Ne.symm hi)
+  · intro hl
+    have hlk : lookup (recover s t c k eid).heap c k = none := by
+      rw [hheap]; exact lookup_set_none (reach_uniq cfg hr) he hl rfl
+    refine ⟨hlk, ?_⟩
+    intro t' hidle hrel hlt
+    refine ⟨(acquire (recover s t c k eid) t' c k).1, ?_⟩
+    have h2 : (acquire (recover s t c k eid) t' c k).2 = .loading := by unfold acquire; rw [hlk]
+    simp only [step, hidle, hrel, hlt, and_self, if_true, ← h2]
 
 /-- no lookup ever finds the entry of a failed load, and an entry that is still loading always has a thread that is
 running its loader (so waiters are never blocked on an orphan). -/
@@ -169,6 +181,16 @@ theorem c18_map_entries_sane (cfg : Cfg) {s : St} (hr : Reach cfg s) {c k eid : 
   have hv := reach_vinv cfg hr
   obtain ⟨e, he, hc, hk, hin⟩ := lookup_sound hl
   exact ⟨e, he, hc, hk, hv.no_abandoned eid e he hin, hv.loading_owner eid e he⟩
+
+/-- the entries `inMap` form a map: at most one per (cache, key) - so the model's `lookup` (first match) is Go's
+`c.payload[key]`, and "the caller's own entry leaves the map if it is in it" is `if c.payload[key] == e { delete }`. -/
+theorem c18_payload_is_a_map (cfg : Cfg) {s : St} (hr : Reach cfg s) {i j : Nat} {a b : Entry} (hij : i ≠ j)
+    (ha : s.heap[i]? = some a) (hb : s.heap[j]? = some b) (hai : a.inMap = true) (hbi : b.inMap = true) :
+    ¬(a.cache = b.cache ∧ a.key = b.key) := by
+  have u := reach_uniq cfg hr
+  rcases Nat.lt_or_gt_of_ne hij with h | h
+  · exact u i j a b h ha hb hai hbi
+  · intro hk; exact u j i b a h hb ha hbi hai ⟨hk.1.symm, hk.2.symm⟩
 
 /-! ## management (all interleavings) -/
 
@@ -190,37 +212,96 @@ theorem c18_release_buckets_old_counterexample :
     releaseBucketsOld (fun b => b = 0 ∨ b = 2) [0, 1, 2] = [2] ∧
       releaseBuckets (fun b => b = 0 ∨ b = 2) [0, 1, 2] = [1] := by decide
 
-/-! ## accounting and the bound (quiescent points: every public call has run to completion) -/
+/-! ## accounting and the bound (all interleavings) -/
 
-/-- **accounting.**  After any sequence of completed calls - lookups that hit, load, fail or panic, on any of the
-caches sharing the cleaner, `Release` of any subset in any order, `Rotate`, `Cleanup`, `CleanEmptyGenerations`,
-`ReleaseBuckets`, new caches - the size the cleaner reports (`getSize`, the sum over its generation list) equals the
-sum of the sizes of the entries held in the maps of the caches. -/
-theorem c18_accounting (cfg : Cfg) (hes : 0 < cfg.entrySize) {s : St} (hr : SeqReach cfg s) :
+/-- **accounting.**  In every reachable state in which no `Cleanup` pass is in progress - whatever lookups are in
+flight (loading, blocked, about to fail), whatever was released, rotated, cleaned in whatever order - the size the
+cleaner reports (`getSize`, the sum over its generation list) equals the sum of the sizes of the entries held in the
+maps of the caches.  (During a pass the entries of generations already marked stale are by design neither listed
+nor yet deleted; `c18_accounting_per_generation` says what holds then.) -/
+theorem c18_accounting (cfg : Cfg) (hes : 0 < cfg.entrySize) {s : St} (hr : Reach cfg s) (ht : s.todo = none) :
     getSize s = liveSum s.heap :=
-  (seqReach_qinv hes hr).accounting
+  (reach_ainv cfg hes hr).accounting ht
 
-/-- what the accounting rests on: every map entry is valid, belongs to an unreleased cache and is assigned to a
-generation that the cleaner still lists; every listed generation counts exactly its entries. -/
-theorem c18_accounting_per_generation (cfg : Cfg) (hes : 0 < cfg.entrySize) {s : St} (hr : SeqReach cfg s) :
+/-- in every reachable state, also in the middle of a `Cleanup` pass: every listed generation counts exactly the map
+entries assigned to it; a map entry belongs to an unreleased cache; it is loading (size 0), or valid with a positive
+size and either a listed generation or a stale one whose cache the running pass has not visited yet. -/
+theorem c18_accounting_per_generation (cfg : Cfg) (hes : 0 < cfg.entrySize) {s : St} (hr : Reach cfg s) :
     (∀ g ∈ s.glist, s.gsize g = genLive s.heap g) ∧
-    (∀ e ∈ s.heap, e.inMap = true → e.st = .valid ∧ e.gen ∈ s.glist ∧ s.released e.cache = false) := by
-  have q := seqReach_qinv hes hr
-  exact ⟨q.acc, fun e he hin => ⟨(q.live e he hin).1, (q.live e he hin).2.2.1, (q.live e he hin).2.2.2.2⟩⟩
+    (∀ e ∈ s.heap, e.inMap = true → s.released e.cache = false ∧ e.st ≠ .abandoned ∧ (e.st = .loading → e.size = 0) ∧
+      (e.st = .valid → 0 < e.size ∧ (e.gen ∈ s.glist ∨ (s.stale e.gen = true ∧ e.cache ∈ s.pending)))) := by
+  have a := reach_ainv cfg hes hr
+  exact ⟨a.acc, fun e he hin => ⟨(a.inmap e he hin).2.1, (a.inmap e he hin).2.2.2.2, a.loading0 e he, a.valid e he hin⟩⟩
 
-/-- **bounded.**  A `Cleanup` pass that runs without concurrent lookups leaves the accounted size - and therefore
-the memory actually held by the maps - at or below the configured limit (a limit of 0 disables cleaning). -/
-theorem c18_bounded (cfg : Cfg) (hes : 0 < cfg.entrySize) (hlim : 0 < cfg.sizeLimit) {s s' : St} {o : List Out}
-    (hr : SeqReach cfg s) (hs : seqOp cfg s .cleanup = some (s', o)) :
+/-- **bounded.**  A whole `Cleanup` call (size check, `markStale`, one visit per bucket) that starts when no other
+pass is in progress and runs without other steps in between - loads may be in flight, they stay parked - leaves the
+accounted size, and therefore the memory actually held by the maps, at or below the configured limit (a limit of 0
+disables cleaning). -/
+theorem c18_bounded (cfg : Cfg) (hes : 0 < cfg.entrySize) (hlim : 0 < cfg.sizeLimit) {s s' : St} {outs : List Out}
+    (hr : Reach cfg s) (ht : s.todo = none) (hs : run cfg s (cleanupLabels cfg s) = some (s', outs)) :
     getSize s' ≤ cfg.sizeLimit ∧ liveSum s'.heap ≤ cfg.sizeLimit := by
-  have q := seqReach_qinv hes hr
-  have h := qinv_cleanup q hs
-  exact ⟨h.2 hlim, h.1.accounting ▸ h.2 hlim⟩
+  have h := run_cleanup_size (reach_ainv cfg hes hr) ht hlim hs
+  have hacc := (reach_ainv cfg hes (run_reach hr hs)).accounting h.2
+  exact ⟨h.1, hacc ▸ h.1⟩
 
-/-- `c18_managed` at quiescent points (the same statement for `SeqReach`) -/
-theorem c18_managed_seq (cfg : Cfg) (hes : 0 < cfg.entrySize) {s : St} (hr : SeqReach cfg s) :
-    ∀ c, c < s.ncaches → s.released c = false → c ∈ s.buckets ∧ s.cur c = s.lastGen :=
-  (seqReach_qinv hes hr).managed
+/-- the sequential semantics is not a second model: a completed call is exactly the run of its critical sections
+in the small-step system (thread 0, nothing else in between), so every sequentially reachable state is reachable
+and all the theorems above apply to it; between two sequential calls nothing is in flight. -/
+theorem c18_seq_is_interleaving (cfg : Cfg) {s s' : St} {op : Op} {outs : List Out}
+    (hr : SeqReach cfg s) (hs : seqOp cfg s op = some (s', outs)) :
+    run cfg s (opLabels cfg s op) = some (s', outs) ∧ Reach cfg s ∧ Reach cfg s' ∧
+      (∀ t, s'.pc t = .idle) ∧ s'.todo = none := by
+  have q := seqReach_sinv hr
+  have h := seqOp_eq_run cfg (q.idle 0) q.todo hs
+  have q' := seqOp_sinv q hs
+  exact ⟨h, seqReach_reach hr, run_reach (seqReach_reach hr) h, q'.idle, q'.todo⟩
+
+/-- `c18_accounting` and `c18_bounded` for sequential histories (what the harness channel `cache.seq` exercises) -/
+theorem c18_accounting_bounded_seq (cfg : Cfg) (hes : 0 < cfg.entrySize) {s : St} (hr : SeqReach cfg s) :
+    getSize s = liveSum s.heap ∧
+      (0 < cfg.sizeLimit → ∀ s' outs, seqOp cfg s .cleanup = some (s', outs) → liveSum s'.heap ≤ cfg.sizeLimit) := by
+  have q := seqReach_sinv hr
+  refine ⟨c18_accounting cfg hes (seqReach_reach hr) q.todo, fun hlim s' outs hs => ?_⟩
+  have h := seqOp_eq_run cfg (q.idle 0) q.todo hs
+  exact (c18_bounded cfg hes hlim (seqReach_reach hr) q.todo h).2
+
+/-! ### historical witnesses: the accounting clause before /repo commit b331fc5
+
+With the three critical sections as they were (`SV.Cache.stepOld`, Model/CacheOld.lean) the clause failed at fully
+quiescent points (all threads idle, no pass in progress).  Each interleaving was reproduced on the real package
+(harness channel `cache.trace`, replays `sched 1000 ...` in the report) before the repair. -/
+
+/-- (a) `Release` while a load is in flight: the loader's `save` accounted the entry although the map was gone. -/
+theorem c18_old_accounting_counterexample_release :
+    ((runOld ⟨1000, 52⟩ init [.newCache, .get 0 0 1, .release 0, .finish 0 (.ok 5 100)]).map
+      fun s => (getSize s, liveSum s.heap, [s.pc 0], s.todo)) = some (152, 0, [.idle], none) := by decide
+
+/-- (b) a load fails after its entry was evicted and the key re-created by another caller: `recover` deleted the
+other caller's entry, which was then accounted when that caller saved it (and its value was lost). -/
+theorem c18_old_accounting_counterexample_recover :
+    ((runOld ⟨1000, 52⟩ init [.newCache, .get 0 0 1, .get 1 0 2, .finish 1 (.ok 9 2000), .rotate, .cleanupBegin,
+        .cleanupBucket, .get 2 0 1, .finish 0 .err, .finish 2 (.ok 7 100)]).map
+      fun s => (getSize s, liveSum s.heap, [s.pc 0, s.pc 1, s.pc 2], s.todo)) =
+      some (152, 0, [.idle, .idle, .idle], none) := by decide
+
+/-- (c) a load spans `Rotate` + `CleanEmptyGenerations`: its generation became empty and was dropped; the entry was
+saved into a generation the cleaner neither lists nor ever marks stale - held, unaccounted, never evicted. -/
+theorem c18_old_accounting_counterexample_delisted :
+    ((runOld ⟨1000, 52⟩ init [.newCache, .get 0 0 1, .get 1 0 2, .finish 1 (.ok 9 100), .rotate, .get 1 0 2, .cleanEmpty,
+        .finish 0 (.ok 5 100)]).map
+      fun s => (getSize s, liveSum s.heap, [s.pc 0, s.pc 1], s.todo)) = some (152, 304, [.idle, .idle], none) := by
+  decide
+
+/-- the same three interleavings on the repaired code: accounted = held -/
+theorem c18_repaired_on_old_witnesses :
+    ((run ⟨1000, 52⟩ init [.newCache, .get 0 0 1, .release 0, .finish 0 (.ok 5 100)]).map
+      fun r => (getSize r.1, liveSum r.1.heap)) = some (0, 0) ∧
+    ((run ⟨1000, 52⟩ init [.newCache, .get 0 0 1, .get 1 0 2, .finish 1 (.ok 9 2000), .rotate, .cleanupBegin,
+        .cleanupBucket, .get 2 0 1, .finish 0 .err, .finish 2 (.ok 7 100)]).map
+      fun r => (getSize r.1, liveSum r.1.heap)) = some (152, 152) ∧
+    ((run ⟨1000, 52⟩ init [.newCache, .get 0 0 1, .get 1 0 2, .finish 1 (.ok 9 100), .rotate, .get 1 0 2, .cleanEmpty,
+        .finish 0 (.ok 5 100)]).map
+      fun r => (getSize r.1, liveSum r.1.heap)) = some (304, 304) := by decide
 
 /-! ## non-vacuity -/
 
@@ -285,14 +366,18 @@ theorem c18_x_release_buckets_shape :
     releaseBucketsSwapsWithLast = false ∧ releaseBucketsCompacts = true ∧
       releaseBucketsConds = ["if b.Released()", "if released > 0"] := by decide
 
-/-- the critical sections of cache.go as modelled: `save`, `recover`, `Release`, `updateGeneration`, `Cleanup` -/
+/-- the critical sections of cache.go as modelled: `save` (assigns the current generation and accounts inside the
+lock, only when not deleted), `recover` (removes only the caller's own entry), `Release` (marks entries deleted),
+`updateGeneration`, `Cleanup` -/
 theorem c18_x_cache_sections :
     saveEvents = ["size := c.entrySize + uint64(refMemSize)", "call c.mu.Lock", "size = 0", "e.value = value",
-      "e.size = size", "gen := e.gen", "e.wg = nil", "call c.mu.Unlock", "call wg.Done", "call gen.size.Add"] ∧
-    saveConds = ["if e.deleted"] ∧
+      "e.size = size", "e.gen = c.currentGeneration", "call e.gen.size.Add", "e.wg = nil", "call c.mu.Unlock",
+      "call wg.Done"] ∧
+    saveConds = ["if e.deleted", "if !e.deleted"] ∧
     recoverEvents = ["call c.mu.Lock", "call delete", "call c.mu.Unlock", "call wg.Done"] ∧
+    recoverConds = ["if c.payload[key] == e"] ∧
     releaseEvents = ["call c.mu.Lock", "defer", "call c.mu.Unlock", "totalFreed += e.size", "call e.gen.size.Sub",
-      "c.payload = nil", "c.released = true"] ∧
+      "e.deleted = true", "c.payload = nil", "c.released = true"] ∧
     updateGenerationEvents = ["if ng != e.gen", "call e.gen.size.Sub", "call ng.size.Add", "e.gen = ng"] ∧
     cacheCleanupConds = ["if e.gen == nil || !e.gen.stale"] ∧
     cacheCleanupEvents = ["call delete", "e.deleted = true", "totalFreed += e.size"] := by decide
